@@ -40,6 +40,10 @@ type Case struct {
 	WatchdogMs     int    `json:"watchdog_ms"`
 	RetransmitMs   int    `json:"retransmit_ms"`
 	StateID        uint32 `json:"state_id,omitempty"`
+	// CEAAt > 1: the peer answers only the j-th transmission of the CER, so the handshake takes
+	// (j-1) x RetransmitInterval - longer than the WatchdogInterval for most draws. No DWR may be
+	// sent before the CEA was delivered.
+	CEAAt int `json:"cea_at,omitempty"`
 	Plans          []Plan `json:"plans"` // one per fresh DWR; the case ends after the last one (or when the client gives up)
 }
 
@@ -108,6 +112,7 @@ func runOnce(c Case) result {
 	var dwrs [][]tx // per fresh DWR: its transmissions
 	var lastID uint32
 	haveID := false
+	cers, ceaFed, earlyDWR := 0, false, false
 	var pending sync.WaitGroup
 	event := make(chan struct{}, 256)
 	mc.WriteHook = func(b []byte, accept func([]byte)) (int, error) {
@@ -119,9 +124,21 @@ func runOnce(c Case) result {
 		}
 		switch {
 		case h.Code == 257 && h.Flags&0x80 != 0:
-			mc.Feed(ceaFor(h))
+			mu.Lock()
+			cers++
+			answer := cers == c.CEAAt || (c.CEAAt <= 1 && cers == 1)
+			if answer {
+				ceaFed = true
+			}
+			mu.Unlock()
+			if answer {
+				mc.Feed(ceaFor(h))
+			}
 		case h.Code == 280 && h.Flags&0x80 != 0:
 			mu.Lock()
+			if !ceaFed {
+				earlyDWR = true
+			}
 			if !haveID || h.HopByHop != lastID {
 				dwrs = append(dwrs, nil)
 				lastID, haveID = h.HopByHop, true
@@ -181,6 +198,13 @@ func runOnce(c Case) result {
 	}
 	handshook := time.Now()
 	defer func() { mc.FeedEOF(); mc.Close(); pending.Wait() }()
+	mu.Lock()
+	early := earlyDWR
+	mu.Unlock()
+	if early {
+		return result{fail: ev.Failf("dwr-before-handshake", "the client sent a DWR before the peer had answered the CER (the CEA came with transmission %d of the CER, %v after the first; WatchdogInterval %v)",
+			c.CEAAt, time.Duration(c.CEAAt-1)*c.r(), c.w())}
+	}
 
 	// observe until the last planned DWR has run its course
 	budget := time.Duration(len(c.Plans))*(c.w()+time.Duration(c.MaxRetransmits+1)*c.r()) + 3*time.Second
@@ -359,6 +383,9 @@ func genCase(t *rapid.T) Case {
 	if rapid.Bool().Draw(t, "state-id") {
 		c.StateID = 42
 	}
+	if c.MaxRetransmits > 0 && rapid.IntRange(0, 3).Draw(t, "slow-cea") == 0 {
+		c.CEAAt = rapid.IntRange(2, c.MaxRetransmits+1).Draw(t, "cea-at")
+	}
 	n := rapid.IntRange(1, 3).Draw(t, "dwrs")
 	for i := 0; i < n; i++ {
 		var p Plan
@@ -387,6 +414,12 @@ func genCase(t *rapid.T) Case {
 
 func classify(c Case) (bool, []string) {
 	cl := []string{fmt.Sprintf("budget:%d", c.MaxRetransmits+1)}
+	if c.CEAAt > 1 {
+		cl = append(cl, "slow-handshake")
+		if time.Duration(c.CEAAt-1)*c.r() > c.w() {
+			cl = append(cl, "handshake-longer-than-watchdog-interval")
+		}
+	}
 	for _, p := range c.Plans {
 		switch {
 		case p.Failure:
@@ -414,7 +447,7 @@ func classify(c Case) (bool, []string) {
 
 var prop = ev.Register(&ev.Prop[Case]{
 	ID: "C13", Name: "watchdog",
-	Rule: "sm.Client with the watchdog enabled (WatchdogInterval 25..45 ms, RetransmitInterval 30..50 ms, MaxRetransmits 0..3) against a scripted peer; per fresh DWR a plan {answer the j-th transmission with success, answer with a failing Result-Code, never answer} and an answer timing {before the client's Write returns, right after, after a quarter interval}; asserted: identity in every DWR, fresh DWRs >= WatchdogInterval after the previous acknowledgement, retransmissions byte-identical and >= RetransmitInterval apart, a silent peer gets exactly MaxRetransmits+1 transmissions and is then closed with nothing sent afterwards, a peer answering with success in time is never closed and sees a further DWR; every case is distinct and non-trivial (each exercises at least one full watchdog round); mismatches that a scheduling delay could explain must reproduce 3 times",
+	Rule: "sm.Client with the watchdog enabled (WatchdogInterval 25..45 ms, RetransmitInterval 30..50 ms, MaxRetransmits 0..3) against a scripted peer that answers the first or (1 in 4) only the j-th transmission of the CER, so that the handshake outlasts the WatchdogInterval; per fresh DWR a plan {answer the j-th transmission with success, answer with a failing Result-Code, never answer} and an answer timing {before the client's Write returns, right after, after a quarter interval}; asserted: no DWR before the CEA was delivered, identity in every DWR, fresh DWRs >= WatchdogInterval after the previous acknowledgement, retransmissions byte-identical and >= RetransmitInterval apart, a silent peer gets exactly MaxRetransmits+1 transmissions and is then closed with nothing sent afterwards, a peer answering with success in time is never closed and sees a further DWR; every case is distinct and non-trivial (each exercises at least one full watchdog round); mismatches that a scheduling delay could explain must reproduce 3 times",
 	Gen:  genCase, Run: runCase, Classify: classify, Attempts: 2,
 })
 
@@ -441,6 +474,9 @@ func TestC13Canonical(t *testing.T) {
 			if !yield(Case{MaxRetransmits: m, WatchdogMs: 25, RetransmitMs: 30, Plans: []Plan{{AnswerAt: m + 1, Timing: "in-write"}, {AnswerAt: 1, Failure: true}}}) {
 				return
 			}
+			if m > 0 && !yield(Case{MaxRetransmits: m, WatchdogMs: 25, RetransmitMs: 45, CEAAt: m + 1, Plans: []Plan{{AnswerAt: 1, Timing: "in-write"}, {AnswerAt: 1, Timing: "in-write"}}}) {
+				return
+			}
 		}
 	})
 }
@@ -454,6 +490,9 @@ type DWR struct {
 	Flags   uint8  `json:"flags"` // R is always set; P / T may be
 	StateID bool   `json:"state_id,omitempty"`
 	Extra   int    `json:"extra,omitempty"` // extra AVPs of an undefined code
+	// Order: which permutation of the AVPs is sent (0 = Origin-Host, Origin-Realm, [Origin-State-Id], extras;
+	// otherwise the Order-th permutation in the factorial number system). None of these AVPs has a fixed position.
+	Order int `json:"order,omitempty"`
 }
 
 type SCase struct {
@@ -470,7 +509,21 @@ func (d DWR) bytes() []byte {
 	for i := 0; i < d.Extra; i++ {
 		nodes = append(nodes, &refcodec.Node{Code: 3000002, Payload: make([]byte, i+1)})
 	}
+	nodes = permute(nodes, d.Order)
 	return refcodec.EncodeMessage(refcodec.Header{Version: 1, Flags: d.Flags | 0x80, Code: 280, HopByHop: d.HbH, EndToEnd: d.E2E}, nodes, false)
+}
+
+// permute returns the k-th permutation (factorial number system, k taken modulo n!) of the nodes.
+func permute(in []*refcodec.Node, k int) []*refcodec.Node {
+	rest := append([]*refcodec.Node{}, in...)
+	var out []*refcodec.Node
+	for n := len(rest); n > 0; n-- {
+		i := k % n
+		k /= n
+		out = append(out, rest[i])
+		rest = append(rest[:i], rest[i+1:]...)
+	}
+	return out
 }
 
 func runServer(c SCase) *ev.Failure {
@@ -558,7 +611,7 @@ func runServer(c SCase) *ev.Failure {
 
 var serverProp = ev.Register(&ev.Prop[SCase]{
 	ID: "C13", Name: "dwa",
-	Rule: "a peer that completed the handshake sends 1..6 well-formed DWRs (identifiers incl. 0 and 2^32-1, P/T flag bits, with/without Origin-State-Id, extra AVPs) in arbitrary fragments to a server state machine; each must be answered, in order, by a DWA with Result-Code 2001, the local identity, the request's identifiers and the R bit clear; non-trivial = >=2 DWRs or a zero identifier",
+	Rule: "a peer that completed the handshake sends 1..6 well-formed DWRs (identifiers incl. 0 and 2^32-1, P/T flag bits, with/without Origin-State-Id, extra AVPs, the AVPs in the RFC's order or a permutation of it) in arbitrary fragments to a server state machine; each must be answered, in order, by a DWA with Result-Code 2001, the local identity, the request's identifiers and the R bit clear; non-trivial = >=2 DWRs or a zero identifier",
 	Gen: func(t *rapid.T) SCase {
 		var c SCase
 		if rapid.Bool().Draw(t, "local-state") {
@@ -568,7 +621,8 @@ var serverProp = ev.Register(&ev.Prop[SCase]{
 		for i := 0; i < n; i++ {
 			c.DWRs = append(c.DWRs, DWR{HbH: rapid.SampledFrom([]uint32{0, 1, 1 << 31, 0xffffffff, 12345}).Draw(t, "hbh"),
 				E2E:   rapid.SampledFrom([]uint32{0, 1, 1 << 31, 0xffffffff, 54321}).Draw(t, "e2e"),
-				Flags: rapid.SampledFrom([]uint8{0, 0x40, 0x10, 0x50}).Draw(t, "flags"), StateID: rapid.Bool().Draw(t, "state"), Extra: rapid.IntRange(0, 3).Draw(t, "extra")})
+				Flags: rapid.SampledFrom([]uint8{0, 0x40, 0x10, 0x50}).Draw(t, "flags"), StateID: rapid.Bool().Draw(t, "state"), Extra: rapid.IntRange(0, 3).Draw(t, "extra"),
+				Order: rapid.SampledFrom([]int{0, 0, 1, 2, 3, 4, 5, 6, 7, 11, 23, 119, 719, 300, 501}).Draw(t, "order")})
 		}
 		k := rapid.IntRange(0, 5).Draw(t, "cuts")
 		for i := 0; i < k; i++ {
@@ -588,6 +642,15 @@ var serverProp = ev.Register(&ev.Prop[SCase]{
 		}
 		if len(c.Cuts) > 0 {
 			cl = append(cl, "fragmented")
+		}
+		for _, d := range c.DWRs {
+			if d.Order != 0 {
+				cl = append(cl, "avps-permuted")
+				if d.StateID {
+					cl = append(cl, "avps-permuted-with-state-id")
+				}
+				break
+			}
 		}
 		return len(c.DWRs) >= 2 || zero, cl
 	},
